@@ -1,3 +1,540 @@
 package main
 
-func cmdCheck(args []string) int { return 2 }
+// check.go — the per-property check: claimed obligations must be generated
+// and discharged; failures are tied to the real code by a replay harness;
+// evidence is written on every run.
+
+import (
+	"bufio"
+	"encoding/json"
+	"flag"
+	"fmt"
+	"os"
+	"os/exec"
+	"path/filepath"
+	"sort"
+	"strconv"
+	"strings"
+	"time"
+)
+
+type Claims struct {
+	ID          string
+	Funcs       []string
+	Obls        []string
+	Lemmas      []string
+	Harness     string // directory under /verif/replay with the bounded replay/search harness
+	HarnessPkg  string // package (relative to repo) the harness is injected into
+	HarnessRun  string // -run pattern
+	Assumptions []string
+	Level       string
+	Bounded     []string // names of bounded stand-ins (run on every check)
+	Notes       []string
+}
+
+func readClaims(path string) (*Claims, error) {
+	f, err := os.Open(path)
+	if err != nil {
+		return nil, err
+	}
+	defer f.Close()
+	c := &Claims{Level: "proof"}
+	sc := bufio.NewScanner(f)
+	sc.Buffer(make([]byte, 1<<20), 1<<20)
+	for sc.Scan() {
+		ln := strings.TrimSpace(sc.Text())
+		if ln == "" || strings.HasPrefix(ln, "#") {
+			continue
+		}
+		i := strings.IndexAny(ln, " \t")
+		if i < 0 {
+			continue
+		}
+		kw, rest := ln[:i], strings.TrimSpace(ln[i:])
+		switch kw {
+		case "func":
+			c.Funcs = append(c.Funcs, rest)
+		case "claim":
+			c.Obls = append(c.Obls, rest)
+		case "lemma":
+			c.Lemmas = append(c.Lemmas, rest)
+		case "harness":
+			c.Harness = rest
+		case "harness-pkg":
+			c.HarnessPkg = rest
+		case "harness-run":
+			c.HarnessRun = rest
+		case "assume":
+			c.Assumptions = append(c.Assumptions, rest)
+		case "level":
+			c.Level = rest
+		case "bounded":
+			c.Bounded = append(c.Bounded, rest)
+		case "note":
+			c.Notes = append(c.Notes, rest)
+		}
+	}
+	return c, sc.Err()
+}
+
+type KnownFinding struct {
+	Property   string `json:"property"`
+	Obligation string `json:"obligation"`
+	What       string `json:"what"`
+	Status     string `json:"status"` // "known" or "fixed"
+	Commit     string `json:"commit,omitempty"`
+}
+
+func readKnown(path string) []KnownFinding {
+	var out []KnownFinding
+	data, err := os.ReadFile(path)
+	if err != nil {
+		return nil
+	}
+	for _, ln := range strings.Split(string(data), "\n") {
+		ln = strings.TrimSpace(ln)
+		if ln == "" || strings.HasPrefix(ln, "#") {
+			continue
+		}
+		var k KnownFinding
+		if json.Unmarshal([]byte(ln), &k) == nil {
+			out = append(out, k)
+		}
+	}
+	return out
+}
+
+type oblEvidence struct {
+	Name   string  `json:"name"`
+	Kind   string  `json:"kind"`
+	Pos    string  `json:"pos"`
+	Status string  `json:"status"`
+	Solver string  `json:"solver"`
+	TimeS  float64 `json:"time_s"`
+	Goal   string  `json:"goal,omitempty"`
+}
+
+func verifRoot() string {
+	if d := os.Getenv("VERIF_ROOT"); d != "" {
+		return d
+	}
+	exe, _ := os.Executable()
+	return filepath.Dir(filepath.Dir(exe))
+}
+
+// runHarness injects the harness test files into the package with -overlay
+// and runs them against the real code. Returns ok, output.
+func runHarness(repo, harnessDir, pkgRel, runPat, tier string, seed int, extraEnv []string) (bool, string, float64) {
+	start := time.Now()
+	files, _ := filepath.Glob(filepath.Join(harnessDir, "*_test.go"))
+	if len(files) == 0 {
+		return true, "no harness files in " + harnessDir, 0
+	}
+	tmp, err := os.MkdirTemp("", "govc-ov-")
+	if err != nil {
+		return true, err.Error(), 0
+	}
+	defer os.RemoveAll(tmp)
+	ov := map[string]map[string]string{"Replace": {}}
+	pkgDir := filepath.Join(repo, pkgRel)
+	for _, f := range files {
+		ov["Replace"][filepath.Join(pkgDir, "zz_verif_"+filepath.Base(f))] = f
+	}
+	data, _ := json.Marshal(ov)
+	ovf := filepath.Join(tmp, "overlay.json")
+	os.WriteFile(ovf, data, 0o644)
+	timeout := "120s"
+	if tier == "thorough" {
+		timeout = "900s"
+	}
+	args := []string{"test", "-overlay", ovf, "-vet=off", "-count=1", "-timeout", timeout}
+	if runPat != "" {
+		args = append(args, "-run", runPat)
+	}
+	args = append(args, "./"+pkgRel)
+	cmd := exec.Command("go", args...)
+	cmd.Dir = repo
+	cmd.Env = append(os.Environ(), "GOFLAGS=-mod=mod", "GOPROXY=off", "GOSUMDB=off", "GOTOOLCHAIN=local",
+		"VERIF_TIER="+tier, "VERIF_SEED="+strconv.Itoa(seed), "GOCACHE="+goCache())
+	cmd.Env = append(cmd.Env, extraEnv...)
+	out, err := cmd.CombinedOutput()
+	return err == nil, string(out), time.Since(start).Seconds()
+}
+
+func goCache() string {
+	if d := os.Getenv("GOCACHE"); d != "" {
+		return d
+	}
+	out, err := exec.Command("go", "env", "GOCACHE").Output()
+	if err == nil {
+		return strings.TrimSpace(string(out))
+	}
+	return filepath.Join(os.TempDir(), "gocache")
+}
+
+func cmdCheck(args []string) int {
+	fs := flag.NewFlagSet("check", flag.ExitOnError)
+	tier := fs.String("tier", "", "quick|thorough")
+	repo := fs.String("repo", "/repo", "repository")
+	replay := fs.String("replay", "", "re-run the replay recorded in this file")
+	par := fs.Int("j", 8, "parallel obligations")
+	writeClaims := fs.Bool("write-claims", false, "development: (re)write the claim lines from the currently discharged obligations")
+	if len(args) < 1 {
+		fmt.Fprintln(os.Stderr, "usage: govc check <ID> [--tier quick|thorough]")
+		return 2
+	}
+	id := args[0]
+	fs.Parse(args[1:])
+	if *tier == "" {
+		*tier = os.Getenv("VERIF_TIER")
+	}
+	if *tier == "" {
+		*tier = "quick"
+	}
+	seed := 0
+	if s := os.Getenv("VERIF_SEED"); s != "" {
+		seed, _ = strconv.Atoi(s)
+	}
+	root := verifRoot()
+	start := time.Now()
+	claims, err := readClaims(filepath.Join(root, "claims", id+".txt"))
+	if err != nil {
+		fmt.Fprintln(os.Stderr, "claims:", err)
+		return 2
+	}
+	claims.ID = id
+	if *replay != "" {
+		return doReplay(root, *repo, claims, *replay, *tier, seed)
+	}
+	timeout := 20
+	if *tier == "thorough" {
+		timeout = 90
+		noCache = true
+	}
+	if cacheDir == "" && !noCache {
+		cacheDir = filepath.Join(root, ".cache")
+	}
+	ctx, err := Load(*repo, specFiles())
+	if err != nil {
+		fmt.Println("load error:", err)
+		// the tree does not load (e.g. does not compile): nothing can be decided deductively
+		fmt.Fprintln(os.Stderr, "cannot load /repo with tag verif:", err)
+		return 2
+	}
+	// generate
+	generated := map[string]*Obligation{}
+	var funcErrs []string
+	var uncontr []string
+	var allObls []*Obligation
+	for _, k := range claims.Funcs {
+		r := ctx.RunFunc(k)
+		if r.Error != "" {
+			funcErrs = append(funcErrs, k+": "+r.Error)
+		}
+		for _, u := range r.Uncontr {
+			uncontr = append(uncontr, k+" -> "+u)
+		}
+		for _, o := range r.Obls {
+			generated[o.Name] = o
+			allObls = append(allObls, o)
+		}
+	}
+	lemmaObls := ctx.LemmaObligations(claims.Lemmas)
+	for _, o := range lemmaObls {
+		generated[o.Name] = o
+		allObls = append(allObls, o)
+	}
+	if *writeClaims {
+		return rewriteClaims(root, id, claims, ctx, allObls, timeout, *par)
+	}
+	var claimed []*Obligation
+	var missing []string
+	for _, name := range claims.Obls {
+		if o, ok := generated[name]; ok {
+			claimed = append(claimed, o)
+		} else {
+			missing = append(missing, name)
+		}
+	}
+	claimedSet := map[string]bool{}
+	for _, n := range claims.Obls {
+		claimedSet[n] = true
+	}
+	var unclaimed []*Obligation
+	for _, o := range allObls {
+		if !claimedSet[o.Name] {
+			unclaimed = append(unclaimed, o)
+		}
+	}
+	ds := dischargeAll(ctx, claimed, timeout, *par, os.Getenv("VERIF_DUMP"))
+	var unclDs []Discharged
+	if *tier == "thorough" {
+		unclDs = dischargeAll(ctx, unclaimed, 20, *par, "")
+	}
+	solverTime := 0.0
+	var evid []oblEvidence
+	var failed []Discharged
+	bySolver := map[string]int{}
+	for _, d := range ds {
+		solverTime += d.R.TimeS
+		st := d.R.Status
+		if d.OK() {
+			bySolver[d.R.Solver]++
+			if d.O.Expect == "sat" {
+				st = "not-refutable(" + st + ")"
+			}
+		} else {
+			failed = append(failed, d)
+		}
+		evid = append(evid, oblEvidence{Name: d.O.Name, Kind: d.O.Kind, Pos: d.O.Pos, Status: st, Solver: d.R.Solver, TimeS: round3(d.R.TimeS)})
+	}
+	known := readKnown(filepath.Join(root, "known_findings.jsonl"))
+	isKnown := func(obl string) *KnownFinding {
+		for i := range known {
+			if known[i].Property == id && known[i].Obligation == obl && known[i].Status == "known" {
+				return &known[i]
+			}
+		}
+		return nil
+	}
+	violations := 0
+	exit := 0
+	var harnessOut string
+	harnessRan := false
+	harnessOK := true
+	harnessT := 0.0
+	runH := func() {
+		if harnessRan || claims.Harness == "" {
+			return
+		}
+		harnessRan = true
+		harnessOK, harnessOut, harnessT = runHarness(*repo, filepath.Join(root, "replay", claims.Harness), claims.HarnessPkg, claims.HarnessRun, *tier, seed, nil)
+	}
+	// bounded stand-ins and the thorough tier always run the harness
+	if len(claims.Bounded) > 0 || *tier == "thorough" {
+		runH()
+	}
+	replDir := filepath.Join(root, "replays", id)
+	writeReplay := func(name string, payload map[string]interface{}) string {
+		os.MkdirAll(replDir, 0o755)
+		p := filepath.Join(replDir, sanitize(name)+".json")
+		data, _ := json.MarshalIndent(payload, "", " ")
+		os.WriteFile(p, data, 0o644)
+		return p
+	}
+	var knownLines []string
+	for _, d := range failed {
+		if kf := isKnown(d.O.Name); kf != nil {
+			knownLines = append(knownLines, fmt.Sprintf("KNOWN-FINDING: property=%s %s: %s", id, d.O.Name, kf.What))
+			continue
+		}
+		runH()
+		violations++
+		exit = 1
+		payload := map[string]interface{}{
+			"property": id, "obligation": d.O.Name, "kind": d.O.Kind, "pos": d.O.Pos, "goal": d.O.Goal,
+			"solver_status": d.R.Status, "solver_output": d.R.Output, "expected": d.O.Expect,
+			"harness": claims.Harness, "harness_pkg": claims.HarnessPkg, "harness_run": claims.HarnessRun,
+		}
+		if d.R.Status == "sat" && d.O.Expect == "unsat" {
+			payload["model"] = GetModel(d.O.Render(""), d.R.Solver, 10)
+		}
+		suffix := ""
+		if claims.Harness != "" && !harnessOK {
+			payload["failing_input_found"] = true
+			payload["harness_output"] = tail(harnessOut, 6000)
+		} else {
+			payload["failing_input_found"] = false
+			payload["harness_output"] = tail(harnessOut, 2000)
+			suffix = " no-failing-input-found"
+		}
+		p := writeReplay(d.O.Name, payload)
+		fmt.Printf("FAILED-OBLIGATION %s status=%s goal=%s\n", d.O.Name, d.R.Status, trunc(d.O.Goal, 200))
+		fmt.Printf("VIOLATION property=%s replay=%s%s\n", id, p, suffix)
+	}
+	for _, l := range knownLines {
+		fmt.Println(l)
+	}
+	// bounded stand-in failure (or thorough harness failure) without a failed obligation
+	if harnessRan && !harnessOK && violations == 0 {
+		// is it a known finding?
+		if kf := isKnown("harness:" + claims.Harness); kf != nil {
+			fmt.Printf("KNOWN-FINDING: property=%s harness %s: %s\n", id, claims.Harness, kf.What)
+		} else {
+			violations++
+			exit = 1
+			p := writeReplay("harness_"+claims.Harness, map[string]interface{}{"property": id, "obligation": "harness:" + claims.Harness, "failing_input_found": true,
+				"harness": claims.Harness, "harness_pkg": claims.HarnessPkg, "harness_run": claims.HarnessRun, "harness_output": tail(harnessOut, 6000)})
+			fmt.Printf("VIOLATION property=%s replay=%s\n", id, p)
+		}
+	}
+	// stale contracts: claimed obligations that were not generated
+	undecided := 0
+	if len(missing) > 0 || len(funcErrs) > 0 {
+		runH()
+		for _, e := range funcErrs {
+			fmt.Printf("UNDECIDED reason=stale-contract %s\n", e)
+		}
+		for _, m := range missing {
+			fmt.Printf("UNDECIDED reason=not-generated %s\n", m)
+			undecided++
+		}
+		if claims.Harness != "" && !harnessOK && violations == 0 {
+			violations++
+			exit = 1
+			p := writeReplay("stale_"+claims.Harness, map[string]interface{}{"property": id, "obligation": "stale-contract", "missing": missing, "errors": funcErrs,
+				"failing_input_found": true, "harness": claims.Harness, "harness_pkg": claims.HarnessPkg, "harness_run": claims.HarnessRun, "harness_output": tail(harnessOut, 6000)})
+			fmt.Printf("VIOLATION property=%s replay=%s\n", id, p)
+		}
+	}
+	// evidence
+	level := claims.Level
+	if undecided > 0 && level == "proof" {
+		level = "other"
+	}
+	discharged := len(ds) - len(failed)
+	var samples []interface{}
+	for i, d := range ds {
+		if i%(len(ds)/4+1) == 0 {
+			samples = append(samples, map[string]string{"obligation": d.O.Name, "goal": trunc(d.O.Goal, 300), "status": d.R.Status, "solver": d.R.Solver, "pos": d.O.Pos})
+		}
+	}
+	var unclNames []string
+	for _, o := range unclaimed {
+		unclNames = append(unclNames, o.Name)
+	}
+	var unclStatus []oblEvidence
+	for _, d := range unclDs {
+		unclStatus = append(unclStatus, oblEvidence{Name: d.O.Name, Kind: d.O.Kind, Pos: d.O.Pos, Status: d.R.Status, Solver: d.R.Solver, TimeS: round3(d.R.TimeS), Goal: trunc(d.O.Goal, 120)})
+	}
+	assumptions := append([]string(nil), claims.Assumptions...)
+	assumptions = append(assumptions, ctx.spec.Assumed...)
+	for _, k := range sortedContractKeys(ctx.spec.Contracts) {
+		c := ctx.spec.Contracts[k]
+		if c.Trusted && c.Used {
+			assumptions = append(assumptions, "assumed contract (not verified): "+k)
+		}
+	}
+	for _, u := range uncontr {
+		assumptions = append(assumptions, "uncontracted callee (whole heap havocked, result unconstrained): "+u)
+	}
+	for _, k := range claims.Funcs {
+		if c := ctx.spec.Contracts[k]; c != nil {
+			for _, cl := range append(append([]*Clause(nil), c.Requires...), c.Ensures...) {
+				if cl.Free {
+					assumptions = append(assumptions, "free (assumed, unchecked) clause in "+k+": "+trunc(cl.Text, 100))
+				}
+			}
+		}
+	}
+	cov := map[string]interface{}{
+		"obligations": len(ds), "discharged": discharged,
+		"checker_cmd":  fmt.Sprintf("bin/check %s --tier %s", id, *tier),
+		"trusted_base": []string{"govc VC generator (symbolic semantics of the Go subset, DESIGN.md §2.3)", "z3 5.1.0 / z3 4.8.12 / cvc5 1.0.3", "go/types, go/packages (x/tools v0.29.0)"},
+		"functions_under_contract": claims.Funcs, "lemmas": claims.Lemmas,
+		"discharged_by_backend": bySolver, "solver_time_s": round3(solverTime),
+		"per_obligation": evid, "samples": samples,
+		"unclaimed_generated": unclNames, "unclaimed_status": unclStatus,
+		"not_generated": missing, "function_errors": funcErrs,
+		"known_findings_reported": knownLines,
+		"int_model":               "Go int is mathematical Int; int32 and uint8 wrap (machine arithmetic)",
+		"dropped_by_translation":  "hclog logger calls (arguments still evaluated); termination only where a decreases clause is given; append modelled as reallocation",
+	}
+	if harnessRan {
+		cov["bounded_harness"] = map[string]interface{}{"name": claims.Harness, "ok": harnessOK, "wall_s": round3(harnessT), "labelled": "bounded", "stand_ins": claims.Bounded, "output_tail": tail(harnessOut, 1500)}
+	}
+	if level != "proof" {
+		cov["explanation"] = "proof obligations discharged where listed; parts labelled bounded are exhaustive/concrete checks of the real code up to the stated bound. " + strings.Join(claims.Notes, " ")
+	}
+	ev := map[string]interface{}{
+		"property_id": id, "tier": *tier, "seed": seed, "level": level, "coverage": cov, "assumptions": assumptions,
+		"wall_s": round3(time.Since(start).Seconds()), "violations": violations,
+	}
+	os.MkdirAll(filepath.Join(root, "evidence"), 0o755)
+	data, _ := json.MarshalIndent(ev, "", " ")
+	os.WriteFile(filepath.Join(root, "evidence", id+".json"), data, 0o644)
+	fmt.Printf("%s tier=%s obligations=%d discharged=%d failed=%d known=%d undecided=%d unclaimed=%d wall=%.1fs\n", id, *tier, len(ds), discharged, len(failed), len(knownLines), undecided, len(unclaimed), time.Since(start).Seconds())
+	return exit
+}
+
+func sortedContractKeys(m map[string]*Contract) []string {
+	ks := make([]string, 0, len(m))
+	for k := range m {
+		ks = append(ks, k)
+	}
+	sort.Strings(ks)
+	return ks
+}
+
+func round3(f float64) float64 { return float64(int(f*1000+0.5)) / 1000 }
+
+func tail(s string, n int) string {
+	if len(s) > n {
+		return "…" + s[len(s)-n:]
+	}
+	return s
+}
+
+func doReplay(root, repo string, claims *Claims, path, tier string, seed int) int {
+	data, err := os.ReadFile(path)
+	if err != nil {
+		fmt.Fprintln(os.Stderr, err)
+		return 2
+	}
+	var payload map[string]interface{}
+	json.Unmarshal(data, &payload)
+	h, _ := payload["harness"].(string)
+	if h == "" {
+		h = claims.Harness
+	}
+	if h == "" {
+		fmt.Println("replay file carries no harness; obligation:", payload["obligation"])
+		fmt.Println(payload["solver_output"])
+		return 1
+	}
+	pkg, _ := payload["harness_pkg"].(string)
+	run, _ := payload["harness_run"].(string)
+	ok, out, _ := runHarness(repo, filepath.Join(root, "replay", h), pkg, run, tier, seed, nil)
+	fmt.Print(tail(out, 4000))
+	if !ok {
+		fmt.Printf("VIOLATION property=%s replay=%s\n", claims.ID, path)
+		return 1
+	}
+	fmt.Println("replay: harness passes on this tree; obligation was:", payload["obligation"])
+	return 0
+}
+
+// rewriteClaims regenerates the "claim" lines: every generated obligation
+// that is discharged now. Development-time only; the file is committed.
+func rewriteClaims(root, id string, claims *Claims, ctx *Ctx, obls []*Obligation, timeout, par int) int {
+	noRetry = true
+	ds := dischargeAll(ctx, obls, timeout, par, "")
+	path := filepath.Join(root, "claims", id+".txt")
+	data, _ := os.ReadFile(path)
+	var keep []string
+	for _, ln := range strings.Split(string(data), "\n") {
+		t := strings.TrimSpace(ln)
+		if strings.HasPrefix(t, "claim ") || strings.HasPrefix(t, "# not claimed") {
+			continue
+		}
+		keep = append(keep, ln)
+	}
+	for len(keep) > 0 && strings.TrimSpace(keep[len(keep)-1]) == "" {
+		keep = keep[:len(keep)-1]
+	}
+	var b strings.Builder
+	b.WriteString(strings.Join(keep, "\n") + "\n")
+	n := 0
+	for _, d := range ds {
+		if d.OK() && (d.R.TimeS < 6 || d.O.Expect == "sat") {
+			fmt.Fprintf(&b, "claim %s\n", d.O.Name)
+			n++
+		} else {
+			fmt.Fprintf(&b, "# not claimed (%s %.1fs): %s\n", d.R.Status, d.R.TimeS, d.O.Name)
+			fmt.Printf("not claimed (%s %.1fs): %s :: %s\n", d.R.Status, d.R.TimeS, d.O.Name, trunc(d.O.Goal, 120))
+		}
+	}
+	os.WriteFile(path, []byte(b.String()), 0o644)
+	fmt.Printf("wrote %d claims to %s\n", n, path)
+	return 0
+}
